@@ -973,7 +973,6 @@ func c08CommitRect(c *Ctx, p *Program) {
 	c.Floor("commit-rect", n, 1)
 }
 
-
 // accessPath: a canonical name for a value reached by field selections from a parameter, a local
 // variable or another value (two loads of cand.rect are different SSA values with the same path).
 func accessPath(v ssa.Value) string {
@@ -993,7 +992,6 @@ func accessPath(v ssa.Value) string {
 	}
 	return "value:" + v.Name()
 }
-
 
 func reviewedThroughCallers(p *Program, rows []*reviewRow, fn *ssa.Function, field string, depth int) *reviewRow {
 	if depth > 2 {
